@@ -279,7 +279,9 @@ HandleResult ==                             \* handleTransferResult
                          IF CanRetry(o)
                            THEN /\ EnqRetry(o, k = "later") /\ UNCHANGED <<tr, bdeliver, wg, panicked, errs, terminal>>
                            ELSE /\ Fail(o) /\ UNCHANGED <<tr, bdeliver, rc, bretries, notReady>>
-          [] k = "fatal" -> /\ Fail(o) /\ UNCHANGED <<tr, bdeliver, rc, bretries, notReady>>
+          \* "unproc": the storage server answered 422 (it will not take the request as it stands): as final
+          \* as any other fatal outcome - the object is failed and an error reports it
+          [] k \in {"fatal", "unproc"} -> /\ Fail(o) /\ UNCHANGED <<tr, bdeliver, rc, bretries, notReady>>
   /\ UNCHANGED <<bpc, berr, bbatch, bxfer, bjobs, watch, delivered, attempts, xferOk, inflight, hist>> /\ UNCH_B
 
 Deliver ==                                  \* under trMutex: one send per remembered tuple, then wait.Done()
